@@ -451,7 +451,11 @@ class C12(Check):
             fnames = solo_funcs(cfg, dict(make_request('br', 11, 'calib'), name='T0'))
             # (every function of the catalogue is the focus of some plan: plan k always parks threads in function k mod n)
             hot = [fnames[k % len(fnames)]] + rng.sample([f for f in fnames if f != fnames[k % len(fnames)]], min(len(fnames) - 1, 3))
-            bits = [1 if rng.random() < 0.4 else 0 for _ in range(4000)]
+            if (k // len(fnames)) % 2 == 0:
+                # ... and in every other round it is the ONLY one: the planned bits then last for the whole phase instead of
+                # being used up by the long functions during the first hundred requests
+                hot = hot[:1]
+            bits = [1 if rng.random() < 0.4 else 0 for _ in range(8000)]
             yield {'world': 'threads', 'seed': base_seed, 'config': cfg, 'marathon': seqs, 'granularity': 'line',
                    'order': names, 'preempts': pre, 'mode': 'marathon', 'requests': [], 'hot_funcs': hot, 'hot_bits': bits}
 
